@@ -617,7 +617,18 @@ func (w *AWorld) runLoop(o loopOpts) {
 			cats[3] = o.extra()
 		}
 		if len(cats[0]) == 0 && (o.extra == nil || len(cats[3]) == 0) {
-			return // nothing left to start: drain
+			// nothing can be started right now. The workload phase is only over when no client
+			// has a call left; while some are merely waiting for an answer the seeded scheduler
+			// (service loops, handlers, clock) keeps deciding - the fair drain comes afterwards
+			left := false
+			for _, c := range w.clients {
+				if !c.finished.Load() && c.next < len(c.plan) {
+					left = true
+				}
+			}
+			if !left || len(cats[1]) == 0 {
+				return // nothing left to start (or nothing runnable at all): drain
+			}
 		}
 		weights := [4]int{o.wClient, o.wLoop, o.wClock, o.wExtra}
 		total := 0
